@@ -81,7 +81,15 @@ func (e *Env) builtin(x *ast.CallExpr, name string, rt types.Type) Value {
 // explicitPanic: a panic statement. In functions that may panic by contract it
 // starts unwinding; elsewhere reaching it is a violation of the C11 sweep.
 func (e *Env) explicitPanic(x *ast.CallExpr) {
-	if e.fc != nil && e.fc.MayPanic {
+	modP := false
+	if e.fc != nil {
+		for _, m := range e.fc.Modifies {
+			if m == "$panic" {
+				modP = true
+			}
+		}
+	}
+	if e.fc != nil && (e.fc.MayPanic || modP) {
 		e.assign("$panic", SBool, True)
 		e.leave()
 		e.dead()
